@@ -55,7 +55,13 @@ the state fields, root, and result-list contents its nodes cannot observe).
   silent mode (`counterexample_silent`), because a silently failed `Query($ S, x)` returns the items it
   found so far and no error.
 
-Probe mode (`found = nil`, `exec.Exists` in lax mode) is not covered.
+## Probe mode
+
+`compose_probe` is the executor-level law with the composed run in probe mode (`found = nil`, stop at the
+first hit): the items of `P` (collected) are fed to `S` in probe mode (`feedProbe`) until a run of `S` hits
+or fails, and that is the composed run's answer; otherwise it ends as `P` ended, without a hit.
+`exists_compose_none`, `exists_compose_first` are the corollaries for `exec.Exists` in lax mode (where
+`Exists` probes); in strict mode `Exists` collects, so (a)/(b) apply to its run.
 -/
 
 namespace Sqljson
@@ -550,6 +556,321 @@ theorem query_literal_head (fuel : Nat) (a : AST) (S : Node) (tx : List Char) (d
     exact head_items (f + 1) a (.str tx none) S doc (.str tx) o ys hS ho (Or.inr (by simp [NoAny])) hfuel
       (ran_str f a tx doc o ho) hSv
 
+/-! ## probe mode (`exec.Exists` in lax mode) -/
+
+/-- feed the items `xs`, in order, to `S` in probe mode; stop at the first run that does not return `notFound`
+    (a hit, or a failure) and return it -/
+def feedProbe (c : Ctx) (S : Node) (fuel : Nat) : St → List Item → Res
+  | t, [] => ⟨t, none, .notFound, none⟩
+  | t, x :: xs =>
+    let r := xItem c fuel t S x none c.lax
+    if r.status = .notFound then feedProbe c S fuel r.st xs else r
+
+theorem feedProbe_cons (c : Ctx) (S : Node) (fuel : Nat) (t : St) (x : Item) (xs : List Item) :
+    feedProbe c S fuel t (x :: xs) =
+      if (xItem c fuel t S x none c.lax).status = .notFound then feedProbe c S fuel (xItem c fuel t S x none c.lax).st xs
+      else xItem c fuel t S x none c.lax := rfl
+
+theorem krp_eq {c : Ctx} {S : Node} {fuel : Nat} {t : St} {x : Item} {r : Res}
+    (h : KRp c S fuel t x r) (ho : r.st.oof = false) : xItem c fuel t S x none c.lax = r := by
+  obtain ⟨k, hle, rfl⟩ := h
+  exact Exec.Fuel.xItem_mono c k fuel hle t S x none c.lax ho
+
+theorem feedProbe_of_feedNF {c : Ctx} {S : Node} {fuel : Nat} {t t' : St} {xs : List Item}
+    (h : FeedNF c S fuel t xs t') (ho : t'.oof = false) (ys : List Item) :
+    feedProbe c S fuel t (xs ++ ys) = feedProbe c S fuel t' ys := by
+  induction h with
+  | nil t => rfl
+  | @cons t x r xs t' hk hnf htail ih =>
+    have hro : r.st.oof = false := oof_of_stkLe (htail.stkLe c S fuel) ho
+    have e := krp_eq hk hro
+    rw [List.cons_append, feedProbe_cons, e, if_pos hnf]
+    exact ih ho
+
+/-- **composition, probe mode.**  `A` = run of `P S` on `v` in probe mode; `B` = run of `P` alone collecting into
+    the empty list; `F` = the items of `B` fed to `S` in probe mode.  If the composed run finished: when a run of
+    `S` hits or fails, `A` is that result; otherwise `A` ends as `B` ended, without a hit. -/
+theorem compose_probe (c : Ctx) (S : Node) (hS : Indep sufFlags S = true) (fuel : Nat) (s : St)
+    (hb : s.budget = none) (P : Node) (hc : s.ignoreSE = true ∨ NoAny P = true) (v : Item) (u : Bool)
+    (hfuel : (xItem c fuel s (append P S) v none u).st.oof = false) :
+    let A := xItem c fuel s (append P S) v none u
+    let B := xItem c fuel s P v (some []) u
+    let F := feedProbe c S fuel s (B.found.getD [])
+    A.found = none ∧
+    (F.status ≠ .notFound →
+      A.status = F.status ∧ A.err = F.err ∧ StkLe F.st A.st ∧ StkLe A.st (mix F.st B.st)) ∧
+    (F.status = .notFound →
+      A.err = B.err ∧ (A.status = .failed ↔ B.status = .failed) ∧ A.status ≠ .ok ∧ A.st = mix F.st B.st) := by
+  intro A B F
+  rcases compose_relP c S fuel hS fuel (Nat.le_refl _) s hb P hc v u with
+    ⟨xs, t', h1, h2, h3, h4, h5, h6, h7⟩ | ⟨xs, x, rest, t1, Fr, h1, h2, h3, h4, h5, h6, h7, h8, h9⟩
+  · have hxs : B.found.getD [] = xs := by
+      show (xItem c fuel s P v (some []) u).found.getD [] = xs
+      rw [h1]; simp
+    have hto : t'.oof = false := by
+      have : (mix t' B.st).oof = false := by rw [← h4]; exact hfuel
+      simp at this; exact this.2
+    have hF : F = ⟨t', none, .notFound, none⟩ := by
+      show feedProbe c S fuel s (B.found.getD []) = _
+      rw [hxs]
+      have := feedProbe_of_feedNF h2 hto []
+      rw [List.append_nil] at this
+      rw [this]; rfl
+    rw [hF]
+    exact ⟨h3, fun h => absurd rfl h, fun _ => ⟨h5, h6, h7, h4⟩⟩
+  · have hxs : B.found.getD [] = xs ++ x :: rest := by
+      show (xItem c fuel s P v (some []) u).found.getD [] = _
+      rw [h1]; simp
+    have hFo : Fr.st.oof = false := oof_of_stkLe h8 hfuel
+    have hto : t1.oof = false := oof_of_stkLe (h3.stkLe c S fuel) hFo
+    have hF : F = Fr := by
+      show feedProbe c S fuel s (B.found.getD []) = _
+      rw [hxs, feedProbe_of_feedNF h2 hto, feedProbe_cons, krp_eq h3 hFo, if_neg h4]
+    rw [hF]
+    exact ⟨h7, fun _ => ⟨h5, h6, h8, h9⟩, fun h => absurd h h4⟩
+
+/-! ### `exec.Exists` (lax mode) from `Query(P, doc)` and the `Exists($ S, xᵢ)` -/
+
+theorem existsRun_eq (fuel : Nat) (a : AST) (doc : Item) (o : Opts) (hl : a.lax = true) :
+    existsRun fuel a doc o = xItem (mkCtx a doc o) fuel (initSt a doc o) a.root doc none a.lax := by
+  simp [existsRun, query, executeItem, mkCtx, hl]
+
+/-- the run of `S` inside `Exists($ S, x)` in lax mode -/
+def sepRunP (a : AST) (S : Node) (x : Item) (o : Opts) (k : Nat) : Res :=
+  xItem (mkCtx a x o) k (sepSt a x o) S x none a.lax
+
+theorem existsRun_dollar (k : Nat) (a : AST) (S : Node) (x : Item) (o : Opts) (ho : o.budget = none)
+    (hl : a.lax = true) :
+    existsRun (k + 1) (withRoot a (dollar S)) x o =
+      { sepRunP a S x o k with st := { (sepRunP a S x o k).st with baseAddr := 0, baseId := 0 } } := by
+  rw [existsRun_eq _ _ _ _ (by simpa [withRoot] using hl)]
+  simp only [withRoot, dollar, xItem]
+  rw [poll_of_budget_none (by simpa [initSt] using ho)]
+  simp only [dispatch, execConstNode, withBaseObject, executeNextItem, executeItem, mkCtx, initSt, sepRunP, sepSt]
+
+theorem existsRun_dollar_zero (a : AST) (S : Node) (x : Item) (o : Opts) (hl : a.lax = true) :
+    (existsRun 0 (withRoot a (dollar S)) x o).st.oof = true := by
+  rw [existsRun_eq _ _ _ _ (by simpa [withRoot] using hl)]; simp [xItem]
+
+/-- a run of a closed `S` in probe mode does not depend on where it happens -/
+theorem transferP (c' : Ctx) (d : Item) (S : Node) (hS : Indep closedFlags S = true) (k : Nat) (s1 t : St)
+    (x : Item) (u : Bool) (hv : s1.verbose = t.verbose) (hi : s1.ignoreSE = t.ignoreSE)
+    (hb1 : s1.budget = none) (hb2 : t.budget = none) :
+    xItem (setRoot (some d) c') k (mix s1 t) S x none u =
+      ⟨mix (xItem c' k s1 S x none u).st t, none, (xItem c' k s1 S x none u).status, (xItem c' k s1 S x none u).err⟩ := by
+  have h := (frame_all (some d) c' k).1 (tgt t []) s1 S x none u hS
+  have hg := xItem_good c' k s1 S x none u
+  rw [tgt_st [] hv hi (hb1.trans hb2.symm)] at h
+  simp only [Shift.fd_none] at h
+  rw [h]
+  have hctx := hg.ctx
+  simp [St.ctxEq] at hctx
+  simp only [Shift.res, hg.shape.1 rfl, Shift.fd_none]
+  congr 1
+  exact tgt_st [] (by rw [hctx.2.2.2.2.2, hv]) (by rw [hctx.2.2.2.2.1, hi])
+    ((xItem_bud c' k s1 S x none u hb1).trans hb2.symm)
+
+section sepP
+variable (a : AST) (S : Node) (doc : Item) (o : Opts)
+
+theorem feedProbe_stkLe (c : Ctx) (fuel : Nat) (t : St) (xs : List Item) : StkLe t (feedProbe c S fuel t xs).st := by
+  induction xs generalizing t with
+  | nil => exact StkLe.refl t
+  | cons x xs ih =>
+    rw [feedProbe_cons]
+    split
+    · exact (xItem_stkLe c fuel t S x none c.lax).trans (ih _)
+    · exact xItem_stkLe c fuel t S x none c.lax
+
+theorem feedProbe_head_oof (c : Ctx) (fuel : Nat) (t : St) (x : Item) (xs : List Item)
+    (h : (feedProbe c S fuel t (x :: xs)).st.oof = false) : (xItem c fuel t S x none c.lax).st.oof = false := by
+  rw [feedProbe_cons] at h
+  split at h
+  · exact oof_of_stkLe (feedProbe_stkLe S c fuel _ xs) h
+  · exact h
+
+theorem probeRun_eq (hS : rootIndependent S = true) (ho : o.budget = none) (fuel k : Nat) (t : St)
+    (hc : Compat a o t) (x : Item)
+    (h1 : (xItem (mkCtx a doc o) fuel t S x none a.lax).st.oof = false)
+    (h2 : (sepRunP a S x o k).st.oof = false) :
+    xItem (mkCtx a doc o) fuel t S x none a.lax =
+      ⟨mix (sepRunP a S x o k).st t, none, (sepRunP a S x o k).status, (sepRunP a S x o k).err⟩ := by
+  have hto : t.oof = false := oof_of_stkLe (xItem_stkLe _ fuel t S x none a.lax) h1
+  have htr := transferP (mkCtx a x o) doc S hS k (sepSt a x o) t x a.lax hc.1.symm hc.2.1.symm
+    (by simpa [sepSt, initSt] using ho) hc.2.2
+  have hm : mix (sepSt a x o) t = t := mix_of_stkLe ⟨by simp [sepSt, initSt], by simp [sepSt, initSt], by simp [sepSt, initSt]⟩
+  rw [hm] at htr
+  have hctx : setRoot (some doc) (mkCtx a x o) = mkCtx a doc o := rfl
+  rw [hctx] at htr
+  have hk : xItem (mkCtx a doc o) k t S x none a.lax = _ := htr
+  have hko : (xItem (mkCtx a doc o) k t S x none a.lax).st.oof = false := by
+    rw [hk]; simp [hto]; exact h2
+  rcases Nat.le_total k fuel with hle | hle
+  · rw [Exec.Fuel.xItem_mono _ k fuel hle t S x none a.lax hko, hk]; rfl
+  · rw [← Exec.Fuel.xItem_mono _ fuel k hle t S x none a.lax h1, hk]; rfl
+
+/-- the separate run finished cleanly with `notFound` -/
+structure RanNF (r : Res) : Prop where
+  oof : r.st.oof = false
+  panicked : r.st.panicked = false
+  nf : r.status = .notFound
+
+/-- no separate probe hits or fails: neither does the feed -/
+theorem feedProbe_all_nf (hS : rootIndependent S = true) (ho : o.budget = none) (fuel : Nat) (xs : List Item)
+    (h : ∀ x ∈ xs, ∃ k, RanNF (sepRunP a S x o k)) :
+    ∀ (t : St), Compat a o t → t.panicked = false →
+      (feedProbe (mkCtx a doc o) S fuel t xs).st.oof = false →
+      (feedProbe (mkCtx a doc o) S fuel t xs).status = .notFound ∧
+      (feedProbe (mkCtx a doc o) S fuel t xs).st.panicked = false := by
+  induction xs with
+  | nil => intro t _ hp _; exact ⟨rfl, hp⟩
+  | cons x xs ih =>
+    intro t hc hp hfo
+    obtain ⟨k, hr⟩ := h x (by simp)
+    have h1 := feedProbe_head_oof S (mkCtx a doc o) fuel t x xs hfo
+    have e := probeRun_eq a S doc o hS ho fuel k t hc x h1 hr.oof
+    have e' : xItem (mkCtx a doc o) fuel t S x none (mkCtx a doc o).lax = _ := e
+    rw [feedProbe_cons, e'] at hfo ⊢
+    simp only [hr.nf, if_true] at hfo ⊢
+    exact ih (fun y hy => h y (by simp [hy])) (mix (sepRunP a S x o k).st t) hc (by simp [hp, hr.panicked]) hfo
+
+/-- the first separate probe that hits or fails decides -/
+theorem feedProbe_first (hS : rootIndependent S = true) (ho : o.budget = none) (fuel : Nat) (xs1 : List Item)
+    (h : ∀ x ∈ xs1, ∃ k, RanNF (sepRunP a S x o k)) (x : Item) (xs2 : List Item) (k : Nat)
+    (hxo : (sepRunP a S x o k).st.oof = false) (hxp : (sepRunP a S x o k).st.panicked = false)
+    (hxs : (sepRunP a S x o k).status ≠ .notFound) :
+    ∀ (t : St), Compat a o t → t.panicked = false →
+      (feedProbe (mkCtx a doc o) S fuel t (xs1 ++ x :: xs2)).st.oof = false →
+      (feedProbe (mkCtx a doc o) S fuel t (xs1 ++ x :: xs2)).status = (sepRunP a S x o k).status ∧
+      (feedProbe (mkCtx a doc o) S fuel t (xs1 ++ x :: xs2)).err = (sepRunP a S x o k).err ∧
+      (feedProbe (mkCtx a doc o) S fuel t (xs1 ++ x :: xs2)).st.panicked = false := by
+  induction xs1 with
+  | nil =>
+    intro t hc hp hfo
+    simp only [List.nil_append] at hfo ⊢
+    have h1 := feedProbe_head_oof S (mkCtx a doc o) fuel t x xs2 hfo
+    have e := probeRun_eq a S doc o hS ho fuel k t hc x h1 hxo
+    have e' : xItem (mkCtx a doc o) fuel t S x none (mkCtx a doc o).lax = _ := e
+    rw [feedProbe_cons, e']
+    simp only [hxs, if_false, mix_panicked, hp, hxp]
+    exact ⟨trivial, trivial, rfl⟩
+  | cons x' xs ih =>
+    intro t hc hp hfo
+    simp only [List.cons_append] at hfo ⊢
+    obtain ⟨k', hr⟩ := h x' (by simp)
+    have h1 := feedProbe_head_oof S (mkCtx a doc o) fuel t x' (xs ++ x :: xs2) hfo
+    have e := probeRun_eq a S doc o hS ho fuel k' t hc x' h1 hr.oof
+    have e' : xItem (mkCtx a doc o) fuel t S x' none (mkCtx a doc o).lax = _ := e
+    rw [feedProbe_cons, e'] at hfo ⊢
+    simp only [hr.nf, if_true] at hfo ⊢
+    exact ih (fun y hy => h y (by simp [hy])) (mix (sepRunP a S x' o k').st t) hc (by simp [hp, hr.panicked]) hfo
+
+end sepP
+
+theorem ranNF_dollar {k : Nat} {a : AST} {S : Node} {x : Item} {o : Opts} (ho : o.budget = none) (hl : a.lax = true)
+    (h : RanNF (existsRun k (withRoot a (dollar S)) x o)) : ∃ k', RanNF (sepRunP a S x o k') := by
+  cases k with
+  | zero => have := existsRun_dollar_zero a S x o hl; rw [h.oof] at this; exact absurd this (by simp)
+  | succ k' =>
+    rw [existsRun_dollar k' a S x o ho hl] at h
+    exact ⟨k', h.oof, h.panicked, h.nf⟩
+
+/-- the instance of `compose_probe` for `exec.Exists` in lax mode -/
+theorem existsRun_compose (fuel : Nat) (a : AST) (P S : Node) (doc : Item) (o : Opts)
+    (hS : rootIndependent S = true) (ho : o.budget = none) (hl : a.lax = true)
+    (hfuel : (existsRun fuel (withRoot a (append P S)) doc o).st.oof = false) :
+    let A := existsRun fuel (withRoot a (append P S)) doc o
+    let B := execute fuel (withRoot a P) doc o
+    let F := feedProbe (mkCtx a doc o) S fuel (initSt a doc o) (B.found.getD [])
+    F.st.oof = false ∧
+    (F.status ≠ .notFound → A.status = F.status ∧ A.err = F.err ∧ StkLe A.st (mix F.st B.st)) ∧
+    (F.status = .notFound →
+      A.err = B.err ∧ (A.status = .failed ↔ B.status = .failed) ∧ A.status ≠ .ok ∧ A.st = mix F.st B.st) := by
+  intro A B F
+  have hA : A = xItem (mkCtx a doc o) fuel (initSt a doc o) (append P S) doc none a.lax :=
+    existsRun_eq _ _ _ _ (by simpa [withRoot] using hl)
+  have hB : B = xItem (mkCtx a doc o) fuel (initSt a doc o) P doc (some []) a.lax := execute_eq _ _ _ _
+  have hfuel' : (xItem (mkCtx a doc o) fuel (initSt a doc o) (append P S) doc none a.lax).st.oof = false := by
+    rw [← hA]; exact hfuel
+  have h := compose_probe (mkCtx a doc o) S (rootIndependent_suf hS) fuel (initSt a doc o) ho P (Or.inl hl) doc a.lax hfuel'
+  simp only [← hA, ← hB] at h
+  obtain ⟨_, h1, h2⟩ := h
+  have hFo : F.st.oof = false := by
+    by_cases hf : F.status = .notFound
+    · have := (h2 hf).2.2.2
+      exact oof_of_stkLe (by rw [this]; exact stkLe_mix_left _ _) hfuel
+    · exact oof_of_stkLe (h1 hf).2.2.1 hfuel
+  exact ⟨hFo, fun hf => ⟨(h1 hf).1, (h1 hf).2.1, (h1 hf).2.2.2⟩, h2⟩
+
+theorem existsWith_of_fields {f1 f2 : Nat} {a1 a2 : AST} {d1 d2 : Item} {o1 o2 : Opts}
+    (h1 : (existsRun f1 a1 d1 o1).st.oof = (existsRun f2 a2 d2 o2).st.oof)
+    (h2 : (existsRun f1 a1 d1 o1).st.panicked = (existsRun f2 a2 d2 o2).st.panicked)
+    (h3 : (existsRun f1 a1 d1 o1).err = (existsRun f2 a2 d2 o2).err)
+    (h4 : (existsRun f1 a1 d1 o1).status = (existsRun f2 a2 d2 o2).status) :
+    existsWith f1 a1 d1 o1 = existsWith f2 a2 d2 o2 := by
+  unfold existsWith guarded
+  dsimp only
+  rw [h1, h2, h3, h4]
+
+/-- **probe, no hit.**  Lax mode: if `Query(P, doc)` returns `xs` and every `Exists($ S, xᵢ)` is false (its run
+    returns `notFound`), then `Exists(P S, doc)` is false. -/
+theorem exists_compose_none (fuel : Nat) (a : AST) (P S : Node) (doc : Item) (o : Opts) (xs : List Item)
+    (hS : rootIndependent S = true) (ho : o.budget = none) (hl : a.lax = true)
+    (hfuel : existsWith fuel (withRoot a (append P S)) doc o ≠ .outOfFuel)
+    (hP : Ran (execute fuel (withRoot a P) doc o) xs)
+    (hSs : ∀ x ∈ xs, ∃ k, RanNF (existsRun k (withRoot a (dollar S)) x o)) :
+    existsWith fuel (withRoot a (append P S)) doc o = .bool false := by
+  have ho' : (existsRun fuel (withRoot a (append P S)) doc o).st.oof = false := by
+    cases h : (existsRun fuel (withRoot a (append P S)) doc o).st.oof with
+    | false => rfl
+    | true => exact absurd (by unfold existsWith guarded; simp [h]) hfuel
+  obtain ⟨hFo, _, h2⟩ := existsRun_compose fuel a P S doc o hS ho hl ho'
+  simp only [hP.found, Option.getD_some] at hFo h2
+  obtain ⟨f1, f2⟩ := feedProbe_all_nf a S doc o hS ho fuel xs (fun x hx => ranNF_dollar ho hl (hSs x hx).choose_spec)
+    (initSt a doc o) (compat_init a doc o ho) rfl hFo
+  obtain ⟨g1, g2, g3, g4⟩ := h2 f1
+  have hBe : (execute fuel (withRoot a P) doc o).err = none := err_none_of_good (execute_good _ _ _ _) hP.ok
+  have hnf : (existsRun fuel (withRoot a (append P S)) doc o).status ≠ .failed := fun h => hP.ok (g2.1 h)
+  have hp : (existsRun fuel (withRoot a (append P S)) doc o).st.panicked = false := by
+    rw [g4]; simp [hP.panicked, f2]
+  unfold existsWith guarded
+  simp only [ho', hp, g1, hBe, hnf]
+  simp [g3]
+
+/-- **probe, first hit or failure.**  Lax mode: if `Query(P, doc)` returns `xs₁ ++ x :: xs₂`, `Exists($ S, ·)` is
+    false on `xs₁`, and `Exists($ S, x)` is true or an error, then `Exists(P S, doc)` answers as `Exists($ S, x)`. -/
+theorem exists_compose_first (fuel : Nat) (a : AST) (P S : Node) (doc : Item) (o : Opts) (xs1 xs2 : List Item) (x : Item)
+    (k : Nat) (hS : rootIndependent S = true) (ho : o.budget = none) (hl : a.lax = true)
+    (hfuel : existsWith fuel (withRoot a (append P S)) doc o ≠ .outOfFuel)
+    (hP : Ran (execute fuel (withRoot a P) doc o) (xs1 ++ x :: xs2))
+    (hSs : ∀ x' ∈ xs1, ∃ k, RanNF (existsRun k (withRoot a (dollar S)) x' o))
+    (hxo : (existsRun k (withRoot a (dollar S)) x o).st.oof = false)
+    (hxp : (existsRun k (withRoot a (dollar S)) x o).st.panicked = false)
+    (hxs : (existsRun k (withRoot a (dollar S)) x o).status ≠ .notFound) :
+    existsWith fuel (withRoot a (append P S)) doc o = existsWith k (withRoot a (dollar S)) x o := by
+  have ho' : (existsRun fuel (withRoot a (append P S)) doc o).st.oof = false := by
+    cases h : (existsRun fuel (withRoot a (append P S)) doc o).st.oof with
+    | false => rfl
+    | true => exact absurd (by unfold existsWith guarded; simp [h]) hfuel
+  obtain ⟨hFo, h1, _⟩ := existsRun_compose fuel a P S doc o hS ho hl ho'
+  simp only [hP.found, Option.getD_some] at hFo h1
+  cases k with
+  | zero => have := existsRun_dollar_zero a S x o hl; rw [hxo] at this; exact absurd this (by simp)
+  | succ k' =>
+    have hd := existsRun_dollar k' a S x o ho hl
+    rw [hd] at hxo hxp hxs
+    obtain ⟨f1, f2, f3⟩ := feedProbe_first a S doc o hS ho fuel xs1
+      (fun x' hx' => ranNF_dollar ho hl (hSs x' hx').choose_spec) x xs2 k' hxo hxp hxs
+      (initSt a doc o) (compat_init a doc o ho) rfl hFo
+    obtain ⟨g1, g2, g3⟩ := h1 (by rw [f1]; exact hxs)
+    have hp : (existsRun fuel (withRoot a (append P S)) doc o).st.panicked = false :=
+      panicked_of_stkLe g3 (by simp [hP.panicked, f3])
+    refine existsWith_of_fields ?_ ?_ ?_ ?_
+    · rw [ho', hd]; exact hxo.symm
+    · rw [hp, hd]; exact hxp.symm
+    · rw [g2, f2, hd]
+    · rw [g1, f1, hd]
+
 /-! ## non-vacuity and counterexamples (all by evaluation) -/
 
 section examples
@@ -656,6 +977,12 @@ theorem counterexample_root :
 /-- bound occurrences are allowed: `@` in a filter, `last` in a subscript -/
 example : rootIndependent (.unary .filter (some (.binary .gt (some (.const .current none)) (some (.integer 1 none)) none))
     (some (.arrayIndex [.binary .subscript (some (.const .last none)) none none] none))) = true := rfl
+
+/-! probe mode (`exec.Exists`, lax) -/
+example : existsWith 20 ⟨append exP exS, true, false⟩ exDoc {} = .bool true := rfl
+example : existsWith 20 ⟨append exP (.key ['z'] none), true, false⟩ exDoc {} = .bool false := rfl
+example : existsWith 20 ⟨dollar exS, true, false⟩ (.obj [(kB, .int 1)]) {} = .bool true := rfl
+example : (existsRun 20 ⟨dollar (.key ['z'] none), true, false⟩ (.obj [(kB, .int 1)]) {}).status = .notFound := rfl
 
 end examples
 
